@@ -32,6 +32,10 @@ def run_variant(path):
         viol = re.findall(r"^(VIOLATED|UNDECIDED): (\S+?)\.(\S+) site=(.*?) at ", out, re.M)
         if any(k == "UNDECIDED" and rule in ("LOAD",) for k, _, rule, _ in viol):
             return name, "broken", "variant does not type-check: " + out[-400:]
+        if v.get("expect_silent"):
+            if viol:
+                return name, "ALARM", "false alarm on a behaviour-preserving variant: %s" % [(r, s) for _, _, r, s in viol]
+            return name, "silent", ""
         missing = []
         for exp in v["expect"]:
             if not any(rule == exp["rule"] and exp.get("site", "") in site for _, _, rule, site in viol):
@@ -55,7 +59,7 @@ def main():
     with concurrent.futures.ThreadPoolExecutor(jobs) as ex:
         for name, status, detail in ex.map(run_variant, paths):
             print("%-8s %s %s" % (status, name, detail))
-            if status in ("MISSED", "broken"):
+            if status in ("MISSED", "broken", "ALARM"):
                 bad += 1
     print("variants: %d, failing: %d" % (len(paths), bad))
     sys.exit(1 if bad else 0)
